@@ -197,7 +197,7 @@ impl MCfg {
     }
 }
 
-fn all_mcfgs() -> Vec<MCfg> {
+pub fn all_mcfgs() -> Vec<MCfg> {
     let mut v = vec![MCfg::Gen(32), MCfg::Gen(1), MCfg::Gen(2), MCfg::Gen(4), MCfg::Gen(16), MCfg::Sse(16), MCfg::Sse(32), MCfg::Avx];
     for a in cfgs::FORCED {
         v.push(MCfg::Arm(a));
@@ -210,7 +210,7 @@ fn all_mcfgs() -> Vec<MCfg> {
 }
 
 /// Everything the real code answers for one plan under one configuration: (cells, probe).
-trait Runner<T: El> {
+pub trait Runner<T: El> {
     fn run(cfg: MCfg, plan: &Plan<T>, ts: &[T]) -> (Vec<T>, usize, Probe<T>);
 }
 
@@ -309,7 +309,7 @@ macro_rules! runner {
 runner!(f32, bg_f32);
 runner!(u8, bg_u8);
 
-fn plan_json<T: El>(plan: &Plan<T>, cfg: MCfg, ts: &[T]) -> Value {
+pub fn plan_json<T: El>(plan: &Plan<T>, cfg: MCfg, ts: &[T]) -> Value {
     json!({
         "kind": "planted",
         "type": T::NAME,
@@ -321,7 +321,7 @@ fn plan_json<T: El>(plan: &Plan<T>, cfg: MCfg, ts: &[T]) -> Value {
     })
 }
 
-fn check_plan<T: El + Runner<T>>(plan: &Plan<T>, cfg: MCfg, ts: &[T], rep: &mut Report) {
+pub fn check_plan<T: El + Runner<T>>(plan: &Plan<T>, cfg: MCfg, ts: &[T], rep: &mut Report) {
     // planted cells must fit this configuration's column count
     let cols = cfg.lanes();
     if plan.planted.iter().any(|p| p.1 >= cols) {
